@@ -14,7 +14,7 @@ import itertools
 from xfabsa import core, numeric as N
 from xfabsa.core import AnalysisError
 from xfabsa.poly import Rat, single_atom
-from xfabsa.symeval import monomial_sign, Evaluator, sym_array, Arr, Opaque, scalar, materialise, vkey
+from xfabsa.symeval import Undecided, monomial_sign, Evaluator, sym_array, Arr, Opaque, scalar, materialise, vkey
 
 
 def flat(v):
@@ -74,11 +74,9 @@ def run(ctx):
                   sample={"function": "%s.u_to_ubi" % short, "value": vkey(got)[:160]})
         # ---- ubi_to_cell == a_to_cell(transpose(ubi))   (rows of UBI are the lattice vectors -> columns)
         fn = mod.func("ubi_to_cell"); ctx.saw(mod, fn)
-        log = []
-        got = Evaluator(mod, inline=set(), call_policy=opaque_policy(log)).call_function("ubi_to_cell", [ubi])
-        ok = len(log) == 1 and log[0][0] == "a_to_cell" and same(log[0][1][0], N.ref("transpose(X)", {"X": ubi}))
-        okret = ok and same(got, Opaque("a_to_cell(%s)" % vkey(log[0][1][0]), (6,)))
-        ctx.check(okret, "C02:shape:%s.ubi_to_cell" % short,
+        got = Evaluator(mod, inline=True).call_function("ubi_to_cell", [ubi])
+        want = Evaluator(mod, inline=True).call_function("a_to_cell", [N.ref("transpose(X)", {"X": ubi})])
+        ctx.check(same(got, want), "C02:shape:%s.ubi_to_cell" % short,
                   "ubi_to_cell does not return a_to_cell(transpose(ubi)) (lattice vectors are the ROWS of UBI, a_to_cell "
                   "wants them as columns)", core.loc(mod, fn))
         # ---- ubi_to_u == transpose(dot(B(cell(ubi)), ubi))/tau
@@ -152,7 +150,7 @@ def run(ctx):
                     v_ = ev.eval(test, env)
                     if isinstance(v_, bool):
                         return v_
-                except AnalysisError:
+                except Undecided:
                     pass
                 # a data-dependent test that is not decided by the signs of diag(R): the generic configuration does not
                 # satisfy it; the special arm (fast path / early return) is analysed separately below
